@@ -202,21 +202,44 @@ type verifC38FailOnce struct {
 	backend.Backend
 	t     backend.FileType
 	name  string
-	armed bool
+	armed int  // number of coming Loads of the file that fail
+	mid   bool // fail in the middle of the transfer (half of the bytes, then a read error) instead of before it
 	mu    sync.Mutex
 }
 
-func (f *verifC38FailOnce) arm() { f.mu.Lock(); f.armed = true; f.mu.Unlock() }
+func (f *verifC38FailOnce) arm() { f.mu.Lock(); f.armed, f.mid = 1, false; f.mu.Unlock() }
+
+func (f *verifC38FailOnce) armMid(n int) { f.mu.Lock(); f.armed, f.mid = n, true; f.mu.Unlock() }
+
+type verifC38BrokenReader struct{ rd io.Reader }
+
+func (b verifC38BrokenReader) Read(p []byte) (int, error) {
+	n, err := b.rd.Read(p)
+	if err == io.EOF {
+		err = errors.New("verifC38: transfer breaks off")
+	}
+	return n, err
+}
 
 func (f *verifC38FailOnce) Load(ctx context.Context, h backend.Handle, length int, offset int64, fn func(rd io.Reader) error) error {
 	f.mu.Lock()
-	hit := f.armed && h.Type == f.t && h.Name == f.name
+	hit := f.armed > 0 && h.Type == f.t && h.Name == f.name
+	mid := f.mid
 	if hit {
-		f.armed = false
+		f.armed--
 	}
 	f.mu.Unlock()
-	if hit {
+	if hit && !mid {
 		return errors.New("verifC38: transient backend error")
+	}
+	if hit {
+		return f.Backend.Load(ctx, h, length, offset, func(rd io.Reader) error {
+			all, err := io.ReadAll(rd)
+			if err != nil {
+				return err
+			}
+			return fn(verifC38BrokenReader{bytes.NewReader(all[:len(all)/2])})
+		})
 	}
 	return f.Backend.Load(ctx, h, length, offset, fn)
 }
@@ -351,7 +374,7 @@ func TestVerif_C38(t *testing.T) {
 		if err != nil {
 			t.Fatalf("%s on the uncached repository: %v", api.name, err)
 		}
-		for _, prefix := range []string{"transient-error-on-first-load", "cached-then-cleared-by-another-process", "cached-cleared-transient-error"} {
+		for _, prefix := range []string{"transient-error-on-first-load", "cached-then-cleared-by-another-process", "cached-cleared-transient-error", "transfer-breaks-off-on-first-load", "transfer-breaks-off-twice"} {
 			for _, cs := range verifC38States() {
 				if cs.name != "flip-middle" && cs.name != "truncated-to-half" {
 					continue
@@ -403,6 +426,12 @@ func TestVerif_C38(t *testing.T) {
 					step("first load", true)
 					_ = os.Remove(cpath)
 					step("load after the entry was cleared", true)
+				case "transfer-breaks-off-on-first-load":
+					flaky.armMid(1)
+					step("first load, the transfer breaks off half-way", false)
+				case "transfer-breaks-off-twice":
+					flaky.armMid(2)
+					step("first load, the transfer breaks off half-way twice", false)
 				case "cached-cleared-transient-error":
 					step("first load", true)
 					_ = os.Remove(cpath)
